@@ -29,7 +29,7 @@ func (r *Run) optsVariant(i int) srvOpts {
 }
 
 func runC08(r *Run) {
-	r.Result.Rule = "scenario = one server configuration (peer store / hook / callback / passive crossed) + a sequence of inbound datagrams: every method incl. unknown, t of length 0..40 with arbitrary bytes, args present/absent, genuine/mutated/bogus tokens, read-only senders, non-query messages, IPv4/IPv6/v4-mapped sources, port 0; every datagram written is attributed to the query that caused it; + tokened puts against a bep44.Store whose Get/Put fails with an ordinary Go error at a PRNG-chosen call; non-trivial = distinct (y, q, t, args?, ro, family)"
+	r.Result.Rule = "scenario = one server configuration (peer store / hook / callback / passive crossed) + a sequence of inbound datagrams: every method incl. unknown, t of length 0..40 with arbitrary bytes, args present/absent, genuine/mutated/bogus tokens, read-only senders, non-query messages, IPv4/IPv6/v4-mapped/scoped link-local (zoned) sources, port 0; every datagram written is attributed to the query that caused it; + tokened puts against a bep44.Store whose Get/Put fails with an ordinary Go error at a PRNG-chosen call; non-trivial = distinct (y, q, t, args?, ro, family)"
 	n := r.n(60, 1500)
 	for i := 0; i < n; i++ {
 		sc := r.newSrvScen(r.optsVariant(i))
@@ -45,6 +45,45 @@ func runC08(r *Run) {
 		r.c08Burst(i)
 	}
 	r.faultyStoreStream("C08", r.n(40, 600))
+	r.c08Zoned(r.n(6, 60))
+}
+
+// Scoped IPv6 sources (link-local addresses carry a zone, e.g. fe80::1%eth0): the answer goes to that very
+// address, zone included - without it the datagram would leave through another interface or not at all.
+func (r *Run) c08Zoned(n int) {
+	for i := 0; i < n; i++ {
+		sc := r.newSrvScen(srvOpts{noSecurity: true, peerStore: i%2 == 0, mute: true})
+		for j := 0; j < 6 && !sc.dead; j++ {
+			ip := net.IP{0xfe, 0x80, 0, 0, 0, 0, 0, 0, 0, 0, 0, 0, 0, 0, byte(i + 1), byte(j + 1)}
+			src := &net.UDPAddr{IP: ip, Port: 6000 + j, Zone: []string{"eth0", "wlan1", "7"}[r.rng.Intn(3)]}
+			q := sc.mkQuery([]string{"ping", "find_node", "get_peers", "get"}[r.rng.Intn(4)], r.randID(), r.randID())
+			q.t = []byte(fmt.Sprintf("z%d", j))
+			q.ro = true
+			sc.conn.waitIdle(time.Second)
+			w0 := sc.conn.numWrites()
+			sc.conn.inject(q.bval().enc(), src)
+			sc.events = []string{fmt.Sprintf("%s query from the scoped address %s", q.q, src)}
+			if !sc.conn.waitWrites(w0+1, 5*time.Second) {
+				sc.viol("C08", "query that must be answered got no datagram")
+				continue
+			}
+			sc.conn.waitIdle(time.Second)
+			ws := sc.conn.writes()[w0:]
+			if len(ws) != 1 {
+				sc.viol("C08", fmt.Sprintf("%d datagrams sent in reaction to one query", len(ws)))
+			}
+			w := ws[0]
+			if !sameUDP(w.Addr, src) {
+				sc.viol("C08", fmt.Sprintf("query came from %s, the answer was sent to %s", src, w.Addr))
+			}
+			if d := parseDgram(w); !d.ok || !bytes.Equal(d.t, q.t) {
+				sc.viol("C08", "reply does not echo the transaction ID byte for byte")
+			}
+			r.hist("zoned-source/" + q.q)
+			r.count(fmt.Sprintf("zoned/%d/%d", i, j), true)
+		}
+		sc.close()
+	}
 }
 
 // Concurrent queries: replies are produced by goroutines that may overlap; every requester must
